@@ -1,24 +1,168 @@
 /-
 C09 — A Dataset stays a rectangular, row-aligned table under any operation sequence.
-(placeholder while the proofs are being written)
+
+Property theorems only, about the executable model in `Model/Dataset.lean` / `Model/DatasetOps.lean`
+(heap of array objects with `other`/`ref_pos` references, field trees, every operation threading
+the code's memo).  The model is tied to `/repo` by the correspondence of `harness/c09.py`.
+
+What is proved, for all heaps, datasets, indices and operation sequences (no bound):
+
+* `history_invariant`   after any sequence of successful operations (new / obj / add / del / subset /
+                        extend / merge(+sort) / filter-subset / unique) every dataset of the world is
+                        rectangular: every field, every field nested in collections, every `other`
+                        / `ref_pos` object attached (recursively) has exactly `num_obs` rows, and every
+                        field's own `num_obs` equals the dataset's.
+* `subset_refines`      `subset` is, object by object, "keep the selected rows": the new field tree has
+                        the same names / kinds / units / levels in the same order, every array — and
+                        every array attached to it — is the image of the old one under `pick idx`,
+                        the declared count is the number of selected rows.  Row alignment is this
+                        statement: one and the same `idx` acts on every column.
+* `pick_mask_in_order`, `pick_ints_in_order`   `pick` keeps the selected rows in order.
+* `extend_counts`       `extend` of `n` rows by `m` rows gives `n + m` everywhere (missing fields and
+                        one-sided attachments are padded), `insert_at_end_appends` / `pad_front` say
+                        where the rows go at the array level.
+* `sort_is_stable_permutation`, `sort_refines`   merge-with-sort permutes every column by one
+                        permutation of the row numbers that is sorted by key and stable.
+* `subset_count_not_sum` the negation witness for the code as it was (`num_obs = sum(idx)`).
+
+Not proved (measured by the correspondence and the property oracle only): the content half of the
+refinement for `extend` (`abs (extend d e) = abs d ++ pad (abs e)` incl. unit factors — only the row
+counts and the array-level splice are theorems), that objects shared between fields stay shared
+(`sharing_preserved`), and `difference`, which is not in the model.
 -/
-import Midgard.Model.DatasetOps
+import Midgard.Proofs.DatasetOpsRect
 
 namespace Midgard.Props.C09
 open Midgard.Dataset
 
-theorem pickMask_length_le {α} (m : List Bool) (xs : List α) : (pickMask m xs).length ≤ xs.length := by
-  induction m generalizing xs with
-  | nil => simp [pickMask]
-  | cons b bs ih =>
-    cases xs with
-    | nil => simp [pickMask]
-    | cons x xs =>
-      simp only [pickMask]
-      split
-      · simp; exact ih xs
-      · have := ih xs; simp; omega
+/-! ### the history invariant -/
+
+/-- After any history of successful operations, starting from a world of rectangular tables, every
+dataset is a rectangular table: all fields, nested fields and attached objects have `num_obs` rows.
+(`Run` also records that the arrays handed to `add` are themselves consistent, which the code does
+not check.) -/
+theorem history_invariant {w w' : W} {ops : List Op} (hr : Run w ops w') (ok : WOK w) : WOK w' :=
+  run_ok hr ok
+
+/-- the empty world is fine, so every history from scratch is covered -/
+theorem empty_world_ok : WOK {} := by
+  intro i x h
+  simp [W.getDs] at h
+
+/-- one step, with the heap only growing (old arrays are never modified: datasets that were not
+operated on keep their contents) -/
+theorem step_invariant (w : W) (op : Op) (w' : W) (out : Out) (hs : step w op = .ok (w', out)) (ok : WOK w)
+    (hv : Valid w op) : WOK w' ∧ HeapExt w.heap w'.heap :=
+  step_ok w op w' out hs ok hv
+
+/-! ### subset -/
+
+/-- `Dataset.subset` refines "keep the selected rows of every column": -/
+theorem subset_refines (idx : Index) (h : Heap) (d : DS) (h' : Heap) (d' : DS)
+    (hok : dsSubset idx h d = .ok (h', d')) (ok : DSOK d) :
+    HeapExt h h' ∧ FieldImg.FieldsImg idx h' d.fields d'.fields ∧ d'.numObs = idx.count ∧ Rect h' d' := by
+  obtain ⟨a, b, c, e, _⟩ := dsSubset_spec idx h d h' d' hok ok.dswf
+  exact ⟨a, b, c, e⟩
+
+/-- an image has the picked rows, and so has everything attached to it (one unfolding of `Img`) -/
+theorem image_rows (idx : Index) (h : Heap) (o o' : Nat) (hi : Img idx h o o') :
+    ∃ ob ob', h[o]? = some ob ∧ h[o']? = some ob' ∧ pick idx ob.rows = .ok ob'.rows ∧ ob'.kind = ob.kind ∧
+      (ob.kind.hasOther = true → OptRel (Img idx h) ob.other ob'.other) ∧
+      (ob.kind.isDelta = true → OptRel (Img idx h) ob.refPos ob'.refPos) := by
+  obtain ⟨f, hf⟩ := hi
+  cases f with
+  | zero => simp [ImgF] at hf
+  | succ f =>
+    obtain ⟨ob, ob', h1, h2, h3, h4, _, _, h7, h8⟩ := hf
+    exact ⟨ob, ob', h1, h2, h3, h4, fun hk => (h7 hk).mono (fun _ _ hh => ⟨f, hh⟩),
+      fun hk => (h8 hk).mono (fun _ _ hh => ⟨f, hh⟩)⟩
+
+/-- boolean mask: the result is the sub-list of the rows whose mask entry is true, in order -/
+theorem pick_mask_in_order {α} (m : List Bool) (xs r : List α) (h : pick (.mask m) xs = .ok r) :
+    r.Sublist xs ∧ r = ((m.zip xs).filter (fun p => p.1)).map (·.2) ∧ r.length = (m.filter id).length := by
+  have hl := pick_length (.mask m) xs r h
+  simp only [pick] at h
+  split at h
+  · simp only [Except.ok.injEq] at h; subst h
+    exact ⟨pickMask_sublist m xs, pickMask_eq_zip_filter m xs, hl⟩
+  · simp at h
+
+/-- integer index: entry `k` of the result is row `is[k]` (negative numbers count from the end) -/
+theorem pick_ints_in_order {α} (is : List Int) (xs r : List α) (h : pick (.ints is) xs = .ok r) :
+    r.length = is.length ∧ ∀ k (hk : k < is.length), ∃ j, normIdx xs.length is[k] = some j ∧ r[k]? = xs[j]? := by
+  have hl := pick_length (.ints is) xs r h
+  simp only [pick] at h
+  split at h
+  · rename_i r' hr
+    simp only [Except.ok.injEq] at h; subst h
+    exact ⟨hl, pickInts_get xs is r' hr⟩
+  · simp at h
+
+/-- the declared count after the `fix:` is the number of selected rows; the code as it was declared
+`sum(idx)`: for the integer index `[3, 2, 1, 3]` over four rows that is 9, not 4 -/
+theorem subset_count_not_sum :
+    (Index.ints [3, 2, 1, 3]).count = 4 ∧ ([3, 2, 1, 3] : List Int).sum = 9 ∧
+    pick (.ints [3, 2, 1, 3]) [10, 11, 12, 13] = .ok [13, 12, 11, 13] := by
+  refine ⟨rfl, by decide, rfl⟩
+
+/-! ### extend -/
+
+/-- `Dataset.extend`: `n` rows extended by `m` rows are `n + m` rows in every field, nested field
+and attached object; fields missing on one side are padded. -/
+theorem extend_counts (us : Units) (h : Heap) (d e : DS) (h' : Heap) (d' : DS)
+    (hok : dsExtend us h d e = .ok (h', d')) (hd : Rect h d) (he : Rect h e) (okd : DSOK d) (oke : DSOK e) :
+    HeapExt h h' ∧ Rect h' d' ∧ DSOK d' ∧ d'.numObs = d.numObs + e.numObs :=
+  dsExtend_ok us h d e h' d' hok hd he okd oke
+
+/-- at the array level `np.insert` at the end appends (every field inserts at its own `num_obs`,
+which the invariant makes the number of rows) and at 0 prepends -/
+theorem insert_at_end_appends {α} (a b : List α) : insertAt a a.length b = a ++ b := insertAt_end a b
+theorem pad_front {α} (a b : List α) : insertAt a 0 b = b ++ a := insertAt_zero a b
+
+/-- `insert` of two arrays: the result has the rows of both, whatever the memo returned for the
+attachments -/
+theorem insert_counts (n m : Nat) (fuel a pos b : Nat) (s : St) (r : Nat) (s' : St)
+    (h : insertObj fuel a pos b s = .ok (r, s')) (hm : MemoGood (n + m) s) (ga : Good s.heap n a)
+    (gb : Good s.heap m b) : Good s'.heap (n + m) r ∧ HeapExt s.heap s'.heap :=
+  ⟨(insertObj_spec n m fuel a pos b s r s' h hm ga gb).2, (insertObj_spec n m fuel a pos b s r s' h hm ga gb).1.1⟩
+
+/-! ### merge with sort -/
+
+/-- the sort index of `merge_with(sort_by=…)` (after the `fix:` `kind="stable"`) is a permutation of
+the row numbers, sorted by key, and stable -/
+theorem sort_is_stable_permutation (keys : List Scalar) :
+    (argsortStable keys).Perm (List.range keys.length) ∧
+    SortedBy (fun i => keys.getD i .nan) (argsortStable keys) ∧
+    StableBy (fun i => keys.getD i .nan) (argsortStable keys) :=
+  ⟨argsortStable_perm keys, argsortStable_sorted keys, argsortStable_stable keys⟩
+
+/-- sorting applies that one index to every column (so rows stay aligned) and keeps the table
+rectangular with the same number of rows -/
+theorem sort_refines (h : Heap) (d : DS) (p : Path) (h' : Heap) (d' : DS)
+    (hok : dsSort h d p = .ok (h', d')) (hd : Rect h d) (ok : DSOK d) :
+    HeapExt h h' ∧ Rect h' d' ∧ DSOK d' ∧ d'.numObs = d.numObs :=
+  dsSort_ok h d p h' d' hok hd ok
+
+/-! ### non-vacuity -/
+
+example : pick (.mask [true, false, true]) [1, 2, 3] = .ok [1, 3] := rfl
+example : pick (.ints [-1, 0]) [1, 2, 3] = .ok [3, 1] := rfl
+example : pick (.ints [3]) [1, 2, 3] = (.error .index : M (List Nat)) := rfl
+example : argsortStable [.num 2, .num 1, .num 2, .num 1] = [1, 3, 0, 2] := by decide +kernel
 
 end Midgard.Props.C09
 
-#print axioms Midgard.Props.C09.pickMask_length_le
+#print axioms Midgard.Props.C09.history_invariant
+#print axioms Midgard.Props.C09.empty_world_ok
+#print axioms Midgard.Props.C09.step_invariant
+#print axioms Midgard.Props.C09.subset_refines
+#print axioms Midgard.Props.C09.image_rows
+#print axioms Midgard.Props.C09.pick_mask_in_order
+#print axioms Midgard.Props.C09.pick_ints_in_order
+#print axioms Midgard.Props.C09.subset_count_not_sum
+#print axioms Midgard.Props.C09.extend_counts
+#print axioms Midgard.Props.C09.insert_at_end_appends
+#print axioms Midgard.Props.C09.pad_front
+#print axioms Midgard.Props.C09.insert_counts
+#print axioms Midgard.Props.C09.sort_is_stable_permutation
+#print axioms Midgard.Props.C09.sort_refines
